@@ -130,6 +130,12 @@ def regex_call(I, how, pattern, s):
     cnt[0] += 1
     if isinstance(mode, (list, tuple)):
         mode = mode[min(cnt[0] - 1, len(mode) - 1)]
+    if isinstance(mode, dict) and 'char_pred' in mode and isinstance(s, SChar) and how == 'search':
+        # a one-character subject: whether the pattern matches is an uninterpreted predicate of (string, position)
+        from . import specnative
+        if I.branch(specnative._pred_at(mode['char_pred'])(s.src.t, I.term(s.idx))):
+            return MatchVal(s, 0, 1, None, True, key)
+        return None
     groups = None
     extra = mode if isinstance(mode, dict) else {}
     if isinstance(mode, dict):
